@@ -13,7 +13,7 @@ import tempfile
 from rstparse import Page
 
 OTHER_NAMES = ["message", "include", "if", "endif", "foreach", "endforeach", "list", "add_library",
-               "target_link_libraries", "find_package", "string", "return"]
+               "target_link_libraries", "find_package", "string", "return", "definition", "docs", "command", "unset"]
 PAT = "^_p_"
 TRIGGER = ":keyword"
 
@@ -48,8 +48,14 @@ def concretize(prog, cmds, seed, trigger=TRIGGER, vary_case=True, layout=None):
         ind = "  " * len(stack) if k not in ("endfunction", "endmacro", "cpp_end_class") else "  " * max(0, len(stack) - 1)
         if p["d"]:
             lines = ["doc w%d of item %d" % (i, i), "second line w%d" % i]
+            if c["ord"] and c["ord"][0] == "dup":
+                lines = ["shared doc of dup"]          # two definitions may be identical in every respect
             if c.get("trig"):
                 lines.append("%s opts: options w%d" % (trigger, i))
+            elif rng.random() < 0.06:
+                lines = []                             # an empty doccomment is still a doccomment
+            if c["k"] in ("cpp_member", "cpp_constructor"):
+                lines.append(":param bb: a hand-written field for a name that only begins like a parameter")
             out.append(ind + "#[[[")
             for ln in lines:
                 out.append(ind + "# " + ln)
@@ -300,7 +306,8 @@ def proj_c03(views):
 
 
 def _mv(m, with_doc_fields=True):
-    return [m["dir"], m["arg"], m["macro"], m["fields"], m["options"]]
+    # the field the concretiser writes into member doccomments (":param bb:") is doc text, not a generated field
+    return [m["dir"], m["arg"], m["macro"], [f for f in m["fields"] if f[0] != "param bb"], m["options"]]
 
 
 def proj_c09(views):
@@ -384,7 +391,7 @@ def items_of(prog, cmds, seed, trigger=TRIGGER, first_line_text=False):
         actual = rng.choice(OTHER_NAMES) if k == "other" else k
         doc = None
         if p["d"]:
-            doc = ["doc w%d of item %d" % (i, i), "", "  indented w%d" % i]
+            doc = ["doc w%d of item %d" % (i, i), "", "  indented w%d" % i, "form\x0cfeed and line\u2028separator w%d" % i]
             if c.get("trig"):
                 doc.append("%s opts: options w%d" % (trigger, i))
         if k in ("endfunction", "endmacro", "cpp_end_class") and stack:
